@@ -91,6 +91,10 @@ pub struct Log {
     pub ode_t: Vec<f64>,
     pub ode_y: Vec<Vec<f64>>,
     pub nonfinite_returned: bool,
+    /// running hash over the bits of every (t, y) handed to `ode` (incl. Jacobian differencing)
+    pub call_hash: u64,
+    /// ode_t.len() at the moment of each `events` call
+    pub ev_at_odeidx: Vec<usize>,
 }
 
 pub struct Instr<'a> {
@@ -107,6 +111,7 @@ pub struct Instr<'a> {
     pub rec_ode: bool,
     pub rec_ode_y: bool,
     pub rec_ev: bool,
+    pub hash_calls: bool,
     pub log: RefCell<Log>,
     in_jac: Cell<bool>,
 }
@@ -125,6 +130,7 @@ impl<'a> Instr<'a> {
             rec_ode: false,
             rec_ode_y: false,
             rec_ev: false,
+            hash_calls: false,
             log: RefCell::new(Log { t_min: f64::INFINITY, t_max: f64::NEG_INFINITY, ..Default::default() }),
             in_jac: Cell::new(false),
         }
@@ -163,6 +169,15 @@ impl<'a> IVP for Instr<'a> {
             if l.ode_calls + l.ode_calls_in_jac > self.budget {
                 drop(l);
                 std::panic::panic_any(BudgetExceeded);
+            }
+            if self.hash_calls {
+                let mut h = l.call_hash ^ x.to_bits();
+                h = h.wrapping_mul(0x100000001b3);
+                for v in y {
+                    h ^= v.to_bits();
+                    h = h.wrapping_mul(0x100000001b3);
+                }
+                l.call_hash = h;
             }
             if self.rec_ode && !self.in_jac.get() {
                 l.ode_t.push(x);
@@ -209,6 +224,8 @@ impl<'a> IVP for Instr<'a> {
             if self.rec_ev {
                 l.ev_t.push(x);
                 l.ev_y.push(y.to_vec());
+                let k = l.ode_t.len();
+                l.ev_at_odeidx.push(k);
             }
         }
         self.see_t(x);
